@@ -283,6 +283,9 @@ func GenAdmissionScenario(t *rapid.T, st *Stats, full bool) (*Scenario, admitInf
 	start := uint32(144*k + rapid.IntRange(1, 100).Draw(t, "off"))
 	which := rapid.IntRange(0, 3).Draw(t, "activation")
 	A := start + 7
+	if which == 3 {
+		A = start + 12 // room for enough funded stakers to form SPR sets
+	}
 	var era Era
 	switch which {
 	case 0: // pFCT becomes one-way (legacy rules otherwise, PEG bank not yet active)
@@ -308,7 +311,9 @@ func GenAdmissionScenario(t *rapid.T, st *Stats, full bool) (*Scenario, admitInf
 	miners := w.Actors[:40]
 	rich := w.Actors[0]
 	ver := func() uint8 { return w.M.oprVersion(w.H()) }
-	grade := func(b *Block) { b.OPR = w.OPRSet(OPRSetOpts{N: 26, Miners: []Actor{rich, miners[1], miners[2]}}) }
+	grade := func(b *Block) {
+		b.OPR = w.OPRSet(OPRSetOpts{N: 26, Miners: miners})
+	}
 	_ = ver
 	// h = start+1: mining; start+2: PEG -> every asset (executes at start+3)
 	b := &Block{}
@@ -335,11 +340,43 @@ func GenAdmissionScenario(t *rapid.T, st *Stats, full bool) (*Scenario, admitInf
 	for w.H() < A-2 {
 		b = &Block{}
 		grade(b)
+		if which == 3 && rapid.IntRange(0, 2).Draw(t, "zeroEarly") == 0 {
+			func() {
+				if len(w.TopStakers()) < 25 {
+					return
+				}
+				vec := vectorFor(5, w.Price)
+				z := rapid.IntRange(2, 40).Draw(t, "earlyZeroAsset")
+				vec[z-1] *= 2
+				b.SPR = w.SPRSet(25, vec)
+			}()
+		}
 		w.Commit(b)
+	}
+	// PIP-10 family: some assets are zeroed by the 25% band rule in the blocks before A, so that
+	// their rate is zero (code -4) or, a little later, their average is unavailable
+	zeroed := map[int]bool{}
+	if which == 3 {
+		for j := 0; j < rapid.IntRange(1, 3).Draw(t, "nzero"); j++ {
+			zeroed[rapid.IntRange(2, 40).Draw(t, "zeroAsset")] = true
+		}
+	}
+	sprZero := func(b *Block) {
+		if len(zeroed) == 0 || len(w.TopStakers()) < 25 {
+			return
+		}
+		vec := vectorFor(5, w.Price)
+		for z := range zeroed {
+			vec[z-1] *= 2
+		}
+		b.SPR = w.SPRSet(25, vec)
 	}
 	for i := 0; i < 3; i++ {
 		b = &Block{}
 		grade(b)
+		if i < 2 && rapid.Bool().Draw(t, "zeroNow") {
+			sprZero(b)
+		}
 		hExec := w.H() + 1
 		var pairs [][2]int
 		if full {
